@@ -324,6 +324,15 @@ func (d *LimbDom) BinOp(in *Interp, op token.Token, x, y Val, xt types.Type, pos
 				return LoShr{W: h.W, K: uint(k.V.Uint64())}
 			}
 		}
+	case token.SUB:
+		// 0 − b for a bit b of an unsigned word type: the same select mask as −b
+		if z, ok := x.(Int); ok && z.V.Sign() == 0 {
+			if lv, ok := y.(*LV); ok && lv.P != nil && lv.Lo.Sign() >= 0 && lv.Hi.Cmp(big.NewInt(1)) <= 0 && lv.Hi.Sign() > 0 {
+				if _, sgn, ok := intInfo(xt, in.WordBits); ok && !sgn {
+					return d.UnOp(in, token.SUB, y, xt, pos)
+				}
+			}
+		}
 	case token.OR:
 		hs, ok1 := x.(HiShl)
 		ls, ok2 := y.(LoShr)
